@@ -183,6 +183,14 @@ pub fn run(cfg: &Cfg, col: &mut Collector) {
             ("image", img.map(|r| J::A(r.iter().map(|w| J::I(*w as i64)).collect())).unwrap_or(J::Null)),
         ]));
     }
+    // ---- fuzz inputs for the totality property (C05): same generator as the in-process monitor
+    let mut fuzz = Vec::new();
+    for i in 0..cfg.n(260, 2000, 4) {
+        let mut r = Rng::for_case(cfg.seed, "C05", i);
+        let (text, _) = crate::c05::gen_text(&mut r, i);
+        fuzz.push(J::s(text));
+    }
+    col.extra.push(("fuzz".into(), J::A(fuzz)));
     col.evaluations = (structured.len() + emit_fail.len() + mixed.len()) as u64;
     col.extra.push(("structured".into(), J::A(structured)));
     col.extra.push(("emit_fail".into(), J::A(emit_fail)));
